@@ -25,6 +25,9 @@ type Thread struct {
 	Name  string
 	gate  chan struct{}
 	label string
+	// harness: named explicitly by the scenario (environment / application thread), as
+	// opposed to a goroutine created by the library
+	harness bool
 }
 
 // Decision is one recorded scheduling (or select) decision.
@@ -120,7 +123,7 @@ func Point(label string) {
 			s.kinds[k]++
 			name = fmt.Sprintf("%s#%d", k, s.kinds[k])
 		}
-		th = &Thread{Name: name, gate: make(chan struct{})}
+		th = &Thread{Name: name, gate: make(chan struct{}), harness: ok}
 		s.threads[g] = th
 	}
 	th.label = label
@@ -200,6 +203,29 @@ func (s *Sched) Run(wait func(), finished func() bool, mon func()) {
 				return
 			}
 			continue
+		}
+		// A clock tick (virtual time jumps to the next timer while everything else stays
+		// parked) models "the timer lands first" relative to the ENVIRONMENT's next action,
+		// whose timing is free. It must not starve library goroutines that are ready to run
+		// (that would be an unfair schedule: e.g. a 5 s close timeout expiring while the
+		// goroutine it waits for is runnable). So a thread parked at "tick" is enabled only
+		// while no library thread is enabled.
+		libReady := false
+		for _, th := range en {
+			if !th.harness {
+				libReady = true
+				break
+			}
+		}
+		if libReady {
+			k := 0
+			for _, th := range en {
+				if th.label != "tick" {
+					en[k] = th
+					k++
+				}
+			}
+			en = en[:k]
 		}
 		sort.Slice(en, func(i, j int) bool { return en[i].Name < en[j].Name })
 		runningEnabled := false
